@@ -54,7 +54,7 @@ def run(idx: Index, rep: Report, tier: str) -> None:
                 continue
             seen_txt[norm(dn.ast)] = seen_txt.get(norm(dn.ast), 0) + 1
             tag = "" if seen_txt[norm(dn.ast)] == 1 else f" (occurrence {seen_txt[norm(dn.ast)]})"
-            rep.check(ok, rule1, f"duration chosen on the path through `{norm(dn.ast)[:50]}`{tag} depends on duration.lower", f.loc(dn.ast), construct=f"{norm(dn.ast)}{tag} reaches {norm(c)[:60]}", detail="" if ok else "the duration is chosen without looking at the lower bound (for a left-open interval ]5, 10] the minimal time step 1/100 is used, which is outside the interval)", function=f.qualname, path=path_text(p))
+            rep.check(ok, rule1, f"duration chosen on the path through `{norm(dn.ast)[:50]}`{tag} depends on duration.lower", f.loc(dn.ast), construct=f"{norm(dn.ast)}{tag} reaches {norm(c)}", detail="" if ok else "the duration is chosen without looking at the lower bound (for a left-open interval ]5, 10] the minimal time step 1/100 is used, which is outside the interval)", function=f.qualname, path=path_text(p))
     rule2 = "C28.2 T1 upper-bound-consulted"
     attrs = {norm(n) for n in walk_no_nested(f.node) if isinstance(n, ast.Attribute)}
     calls = {call_name(c) for c in walk_no_nested(f.node) if isinstance(c, ast.Call)}
@@ -67,13 +67,17 @@ def run(idx: Index, rep: Report, tier: str) -> None:
 
     rule3 = "C28.3 mapping-back"
     gv = [c for _, c in cfg_nodes_with_call(cfg, "get_value")]
-    ok = any(norm(c.func.value) == "state" for c in gv)
+    states = {norm(n.ast.targets[0]) for n in cfg.nodes if isinstance(n.ast, ast.Assign) and isinstance(n.ast.value, ast.Call) and call_name(n.ast.value) in ("apply", "apply_unsafe")}
+    ok = any(norm(c.func.value) in states for c in gv)
     rep.check(ok, rule3, "fluent-dependent bounds are evaluated in the current simulated state", f.loc(gv[0]) if gv else f.loc(), construct="; ".join(norm(c) for c in gv)[:120], function=f.qualname)
-    st = [n for n in cfg.nodes if isinstance(n.ast, ast.Assign) and norm(n.ast.targets[0]) == "state" and isinstance(n.ast.value, ast.Call) and call_name(n.ast.value) in ("apply", "apply_unsafe")]
+    st = [n for n in cfg.nodes if isinstance(n.ast, ast.Assign) and isinstance(n.ast.value, ast.Call) and call_name(n.ast.value) in ("apply", "apply_unsafe") and n.ast.value.args and any(isinstance(x, ast.Name) and x.id == norm(n.ast.targets[0]) for x in ast.walk(n.ast.value.args[0]))]
     rep.check(bool(st), rule3, "the simulated state advances with every plan step", f.loc(st[0].ast) if st else f.loc(), construct=norm(st[0].ast) if st else "no state = simulator.apply(...)", detail="" if st else "later durations are evaluated in a stale state", function=f.qualname)
     ai = [c for c in walk_no_nested(f.node) if isinstance(c, ast.Call) and call_name(c) == "ActionInstance"]
-    ok = bool(ai) and all({k.arg: norm(k.value) for k in c.keywords}.get("action") == "action_for_mapback" and {k.arg: norm(k.value) for k in c.keywords}.get("params") == "action_instance.actual_parameters" for c in ai)
+    insts = {norm(l.target) for l in walk_no_nested(f.node) if isinstance(l, ast.For) and isinstance(l.iter, ast.Attribute) and l.iter.attr == "actions" and isinstance(l.target, ast.Name)}
+    params = set(f.params())
+    m = [a for a in walk_no_nested(f.node) if isinstance(a, ast.Assign) and isinstance(a.targets[0], ast.Name) and isinstance(a.value, ast.Subscript) and norm(a.value.value) in params and any(norm(a.value.slice) == f"{i}.action" for i in insts)]
+    mapped = {norm(a.targets[0]) for a in m}
+    ok = bool(ai) and all({k.arg: norm(k.value) for k in c.keywords}.get("action") in mapped and any({k.arg: norm(k.value) for k in c.keywords}.get("params") == f"{i}.actual_parameters" for i in insts) for c in ai)
     rep.check(ok, rule3, "the original action is instantiated with the compiled instance's parameters", f.loc(ai[0]) if ai else f.loc(), construct=norm(ai[0])[:120] if ai else "", function=f.qualname)
-    m = [a for a in walk_no_nested(f.node) if isinstance(a, ast.Assign) and norm(a.targets[0]) == "action_for_mapback"]
-    ok = bool(m) and norm(m[0].value) == "new_to_old[action_instance.action]"
+    ok = bool(m) and all(norm(a.value.value) == "new_to_old" for a in m)
     rep.check(ok, rule3, "the compiled action is mapped back through new_to_old", f.loc(m[0]) if m else f.loc(), construct=norm(m[0]) if m else "", function=f.qualname)
